@@ -18,7 +18,7 @@ impl PyWorker {
             .stdin(Stdio::piped())
             .stdout(Stdio::piped())
             .spawn()
-            .map_err(|e| format!("cannot start python3-vt: {}", e))?;
+            .map_err(|e| format!("infra: cannot start python3-vt: {}", e))?;
         let stdin = child.stdin.take().unwrap();
         let stdout = BufReader::new(child.stdout.take().unwrap());
         Ok(PyWorker { child, stdin, stdout })
@@ -64,4 +64,22 @@ pub fn ask(req: &Value) -> Result<Value, String> {
 
 pub fn hex(b: &[u8]) -> String {
     b.iter().map(|x| format!("{:02x}", x)).collect()
+}
+
+/// record a worker error in a verdict: failures to start the interpreter are infrastructure
+/// (reported as inconclusive by `infra_inconclusive`), everything else is a finding
+pub fn record_error(v: &mut crate::engine::Verdict, e: String) {
+    if e.starts_with("infra:") {
+        v.class("python-infra-error");
+    } else {
+        v.fail("python-worker", e);
+    }
+}
+
+pub fn infra_inconclusive(ctx: &mut crate::engine::Ctx) {
+    if let Some(n) = ctx.out.classes.get("python-infra-error").copied() {
+        if n > 0 {
+            ctx.out.inconclusive.push(format!("{} cases could not reach the python3-vt worker", n));
+        }
+    }
 }
